@@ -317,11 +317,8 @@ func TestHasherLaws(t *testing.T) {
 var expiryCases atomic.Int64
 
 func TestRetentionWindow(t *testing.T) {
-	maxCases := int64(lib.Pick(60, 800))
 	rapid.Check(t, func(t *rapid.T) {
-		if expiryCases.Add(1) > maxCases {
-			t.Skip("expiry case budget of this process used (each repository leaks a ticker goroutine)")
-		}
+		expiryCases.Add(1) // each case leaks one ticker goroutine (no stop API); the case count per process is bounded by -rapid.checks
 		windowMs := rapid.IntRange(20, 60).Draw(t, "windowMs")
 		window := time.Duration(windowMs) * time.Millisecond
 		repo, err := middleware.NewMapExpiringKeyRepository(window)
